@@ -246,6 +246,8 @@ def fresh_seq(E, name, kind, length, lo=None, hi=None):
     if lo is None:
         lo, hi = {"array_b": (-128, 127)}.get(kind, (0, 255))
     arr = z3.Array(name, z3.IntSort(), z3.IntSort())
+    from ..common.core import ranged_array
+    ranged_array(name, lo, hi)
 
     def get(i):
         t = z3.Select(arr, zint(i))
